@@ -152,6 +152,15 @@ def cases():
         ("Bernoulli(1.0)", lambda s: D.DistBernoulli(s, 1.0), iwithin(0, 1)),
         ("Beta(0.5,0.5)", lambda s: D.DistBeta(s, 0.5, 0.5), within(0, 1)),
         ("Beta(1,1)", lambda s: D.DistBeta(s, 1.0, 1.0), within(0, 1)),
+        # regimes with their own code path (interplay parts only: '@big')
+        ("Beta(1e-5,2e-5)@big", lambda s: D.DistBeta(s, 1e-5, 2e-5),
+         within(0, 1)),
+        ("Beta(1e-300,1e-300)@big", lambda s: D.DistBeta(s, 1e-300, 1e-300),
+         within(0, 1)),
+        ("Pearson6(1e-300,1e-300,1)@big",
+         lambda s: D.DistPearson6(s, 1e-300, 1e-300, 1.0), nn),
+        ("Poisson(1000)@big", lambda s: D.DistPoisson(s, 1000.0), inn),
+        ("Poisson(2100)@big", lambda s: D.DistPoisson(s, 2100), inn),
         ("Beta(2,3)", lambda s: D.DistBeta(s, 2.0, 3.0), within(0, 1)),
         ("Beta(3,1)", lambda s: D.DistBeta(s, 3.0, 1.0), within(0, 1)),
         ("Binomial(3,0.3)", lambda s: D.DistBinomial(s, 3, 0.3),
@@ -266,6 +275,8 @@ def _script_case(name, mk, support, Scripted0, Real, alpha, maxlen, viols):
     n = 0
     nontriv = 0
     SubS = make_sub_scripted()
+    if name.endswith("@big"):
+        return 0, 0      # thousands of numbers per draw: interplay parts only
     if True:
         Scripted = Scripted0
         if name.endswith("@MT"):
